@@ -1,7 +1,8 @@
 (** C08 — glob, bracket and extglob patterns match exactly the strings the specification (POSIX
     2.13 + bash extglob) says; the match covers the whole subject.
     Only pinned statements, [exact], and [Print Assumptions]. *)
-From BV Require Import Base.Prelude Glob.Ast Glob.Parse Glob.Regex Glob.Translate Glob.Sem Glob.Known
+From Coq Require Import String.
+From BV Require Import Base.Prelude Base.Codec Glob.Ast Glob.Parse Glob.Regex Glob.Translate Glob.Sem Glob.Known
   Glob.Proofs Glob.ClassProofs Glob.Decide Glob.Expand Glob.ExpandProofs.
 
 (** The engine model run on the regex emitted for [g] accepts, as a whole-subject match, exactly the
@@ -18,17 +19,18 @@ Theorem c08_anchored_search_is_whole : forall dotall ci r s,
 Proof. exact anchored_search_is_whole. Qed.
 Print Assumptions c08_anchored_search_is_whole.
 
-(** Whole-string theorem for the flags and anchors regenerated from the source: it needs [m] off. *)
-Theorem c08_whole_string : forall ci g s, eff_multi = false -> okb g = true ->
+(** Whole-string theorem for the flags and anchors regenerated from the source ("(?s)", ^ and $):
+    what [Pattern::exactly_matches] computes is the specification's whole-subject match. *)
+Theorem c08_whole_string : forall ci g s, okb g = true ->
   search eff_multi eff_dotall ci (anchored (tr g)) s = glob_match ci g s.
 Proof. exact whole_string_dec. Qed.
 Print Assumptions c08_whole_string.
 
-(** ... and with [m] on (today's "(?ms)") it is false: abc matches "x\nabc". *)
-Theorem c08_whole_string_refuted : eff_multi = true ->
-  exists g s, ok false g /\ search eff_multi eff_dotall false (anchored (tr g)) s = true /\ glob_match false g s = false.
-Proof. exact whole_string_current_refuted. Qed.
-Print Assumptions c08_whole_string_refuted.
+(** regression: with the [m] flag (the defect repaired by f17341b) it is false: abc matches "x\nabc". *)
+Theorem c08_regression_multiline :
+  exists g s, ok false g /\ search true true false (RCat RBol (RCat (tr g) REol)) s = true /\ glob_match false g s = false.
+Proof. exact whole_string_refuted_multi. Qed.
+Print Assumptions c08_regression_multiline.
 
 (** The bracket hypothesis is decidable: the engine's class parser reads benign class text as the
     union of its members. *)
@@ -60,17 +62,22 @@ Theorem c08_negation_refuted :
 Proof. exact negation_refuted. Qed.
 Print Assumptions c08_negation_refuted.
 
-Theorem c08_leading_bracket_refuted : peg_leading_rbracket = false ->
-  exists p s, k_lead_rbracket false p = true /\
-              whole false true false (tr (parse false p)) s = false /\ spec_matches false false p s = true.
-Proof. exact leading_bracket_refuted. Qed.
-Print Assumptions c08_leading_bracket_refuted.
+Theorem c08_leading_bracket_repaired :
+  spec_matches false false (s_of "[]a]") (s_of "]") = true /\
+  whole false true false (tr (parse false (s_of "[]a]"))) (s_of "]") = true /\
+  whole false true false (tr (parse false (s_of "[]a]"))) (s_of "a") = true /\
+  whole false true false (tr (parse false (s_of "[!]]"))) (s_of "]") = false /\
+  whole false true false (tr (parse false (s_of "[!]]"))) (s_of "a") = true /\
+  print_regex (tr (parse false (s_of "[]-a]"))) = [91; 92; 93; 45; 97; 93]%N.
+Proof. exact leading_bracket_repaired. Qed.
+Print Assumptions c08_leading_bracket_repaired.
 
-Theorem c08_escaped_alnum_refuted : peg_escaped_alnum_plain = false ->
-  exists p s, k_esc_alnum false p = true /\
-              whole false true false (tr (parse false p)) s = false /\ spec_matches false false p s = true.
-Proof. exact escaped_alnum_refuted. Qed.
-Print Assumptions c08_escaped_alnum_refuted.
+Theorem c08_escaped_alnum_repaired :
+  whole false true false (tr (parse false [91; 92; 97; 93]%N)) (s_of "a") = true /\
+  whole false true false (tr (parse false [91; 92; 97; 93]%N)) [7%N] = false /\
+  print_regex (tr (parse false [91; 92; 97; 92; 100; 93]%N)) = s_of "[ad]".
+Proof. exact escaped_alnum_repaired. Qed.
+Print Assumptions c08_escaped_alnum_repaired.
 
 Theorem c08_class_ops_refuted :
   exists p s, k_class_ops false p = true /\
@@ -99,17 +106,16 @@ Theorem c08_expand_sorted_single : forall ls ex ext ci dotglob c, requires_expan
 Proof. exact (fun ls ex ext ci dotglob c H => expand_sorted_single ls ex ext ci dotglob c H sort_flag). Qed.
 Print Assumptions c08_expand_sorted_single.
 
-Theorem c08_expand_sorted_all : forall ls ex ext ci dotglob comps, expand_sorts_results = true ->
+Theorem c08_expand_sorted_all : forall ls ex ext ci dotglob comps,
   sorted_strs (expand ls ex ext ci dotglob comps).
 Proof. exact expand_sorted_all. Qed.
 Print Assumptions c08_expand_sorted_all.
 
-Theorem c08_multilevel_sort_refuted : expand_sorts_results = false -> expand_sorts_per_dir = true ->
-  exists names p,
-    expand_model true false false names p <> Some (expand_spec_words true false false names p) /\
-    ~ sorted_strs (match expand_model true false false names p with Some l => l | None => [] end).
-Proof. exact multilevel_sort_refuted. Qed.
-Print Assumptions c08_multilevel_sort_refuted.
+Theorem c08_multilevel_sort_repaired :
+  expand_model true false false [Codec.lit "a/x"; Codec.lit "a-/x"] (Codec.lit "*/x") = Some [Codec.lit "a-/x"; Codec.lit "a/x"] /\
+  expand_spec_words true false false [Codec.lit "a/x"; Codec.lit "a-/x"] (Codec.lit "*/x") = [Codec.lit "a-/x"; Codec.lit "a/x"].
+Proof. exact multilevel_sort_repaired. Qed.
+Print Assumptions c08_multilevel_sort_repaired.
 
 (** Non-vacuity of the hypotheses. *)
 Theorem c08_nonvacuous : okb ex_pat = true /\ ex_pat <> GNil /\
